@@ -8,34 +8,54 @@
                             with the regenerated `Gen.C10.displayMappings` / `Gen.C10.wcwidth`)
     * `safeWrite`           `Vt100_Output.write` (output/vt100.py): ESC is replaced by '?'
     * `printFrags`          `renderer.print_formatted_text` as a list of tagged output segments
+
+  Further model files: `C10Copy` (`Window._copy_body`), `C10Diff` (`_output_screen_diff`, emitters),
+  `C10Tok` (tokenizer), `C10Grammar` (the output grammar as recognisers + greedy parser), `C10Bytes`
+  (`_buffer` / `flush` / `flush_stdout` / `encode(…, "replace")`, UTF-8 and code-page codecs, the
+  terminal's decoders), `C10Out` (all other emitters, `set_title`, `Renderer.reset/erase`, the
+  dumb-terminal prompt, `patch_stdout`, `PlainTextOutput` printing), `C10Gen` (instantiation with the
+  regenerated tables).
 -/
 import Ptk.Py
 namespace Ptk.C10
 open Ptk.Py
 
+/-- A character of a Python `str` is a CODE POINT: any number below 0x110000, the lone surrogates
+    U+D800–U+DFFF included (they reach the display through `os.fsdecode` / `surrogateescape`
+    input; Lean's `Char` excludes them).  Displayed content is therefore modelled as a list of
+    natural numbers; nothing in the model or the theorems needs the upper bound, so they hold for
+    every `Nat`.  Style strings stay `Text` (they are never sent to the terminal). -/
+scoped notation "CP" => Nat
+scoped notation "CText" => List Nat
+
+/-- is `c` a lone surrogate? -/
+def isSurrogate (c : CP) : Bool := 0xD800 ≤ c && c ≤ 0xDFFF
+
 /-- the characters the property calls control characters: C0 (0x00–0x1F), DEL, C1 (0x80–0x9F) -/
-def isControl (c : Char) : Bool := c.toNat < 0x20 || (0x7f ≤ c.toNat && c.toNat ≤ 0x9f)
+def isControl (c : CP) : Bool := c < 0x20 || (0x7f ≤ c && c ≤ 0x9f)
 
 /-- a text without any control character -/
-def Clean (t : Text) : Prop := ∀ c ∈ t, isControl c = false
+def Clean (t : CText) : Prop := ∀ c ∈ t, isControl c = false
 
-def cleanB (t : Text) : Bool := t.all fun c => !isControl c
+def cleanB (t : CText) : Bool := t.all fun c => !isControl c
 
-def ESC : Char := Char.ofNat 27
-def NBSP : Char := Char.ofNat 160
+def ESC : CP := 27
+def NBSP : CP := 160
+/-- `'?'` -/
+def QM : CP := 63
 
 /-- `Char.display_mappings`: dict from str to str, in dict order -/
-abbrev Table := List (Text × Text)
+abbrev Table := List (CText × CText)
 
 /-- `char in self.display_mappings` / `self.display_mappings[char]` (first match = the dict entry,
     keys of a dict literal are unique; uniqueness is a generated side condition) -/
-def lookup : Table → Text → Option Text
+def lookup : Table → CText → Option CText
   | [], _ => none
   | (k, v) :: rest, s => if k = s then some v else lookup rest s
 
 /-- `get_cwidth(string)` (utils.py `_CharSizesCache.__missing__`): one character →
     `max(0, wcwidth(c))`, otherwise the sum over the characters (which is the same formula). -/
-def cwidth (wc : Char → Int) : Text → Nat
+def cwidth (wc : CP → Int) : CText → Nat
   | [] => 0
   | c :: cs => (wc c).toNat + cwidth wc cs
 
@@ -47,14 +67,14 @@ def controlCodes : List Nat := List.range 0x20 ++ (List.range 0x21).map (· + 0x
 
 /-- every control character has an entry -/
 def coversControls (m : Table) : Bool :=
-  controlCodes.all fun n => (lookup m [Char.ofNat n]).isSome
+  controlCodes.all fun n => (lookup m [n]).isSome
 
 /-- no display string contains a control character -/
 def valuesPrintable (m : Table) : Bool := m.all fun kv => cleanB kv.2
 
 /-- every display string occupies at least one column (so a mapped character is never
     treated as zero-width and merged raw into the previous cell) -/
-def valuesWidthPos (m : Table) (wc : Char → Int) : Bool := m.all fun kv => 0 < cwidth wc kv.2
+def valuesWidthPos (m : Table) (wc : CP → Int) : Bool := m.all fun kv => 0 < cwidth wc kv.2
 
 /-- all keys are single characters (as `Char.display_mappings` is used: `char in mappings`) -/
 def keysSingle (m : Table) : Bool := m.all fun kv => kv.1.length == 1
@@ -66,7 +86,7 @@ def keysNodup : Table → Bool
 
 /-- a screen cell: `Char.char`, `Char.style`, `Char.width` -/
 structure Cell where
-  char : Text
+  char : CText
   style : Text
   width : Nat
 deriving DecidableEq, Repr, Inhabited
@@ -75,7 +95,7 @@ def nbspSuffix : Text := " class:nbsp ".toList
 def controlSuffix : Text := " class:control-character ".toList
 
 /-- `Char.__init__(char, style)` -/
-def mkCell (m : Table) (wc : Char → Int) (s : Text) (style : Text) : Cell :=
+def mkCell (m : Table) (wc : CP → Int) (s : CText) (style : Text) : Cell :=
   match lookup m s with
   | some v =>
     let style' := if s = [NBSP] then style ++ nbspSuffix else style ++ controlSuffix
@@ -85,18 +105,18 @@ def mkCell (m : Table) (wc : Char → Int) (s : Text) (style : Text) : Cell :=
 /-- `get_display_width(text)` (layout/screen.py): like `get_cwidth`, but control characters count
     with the width of their display string.  `printable` = `str.isprintable` per character (the
     fast path `text.isprintable()` returns `get_cwidth(text)` without consulting the table). -/
-def displayWidth (m : Table) (wc : Char → Int) (printable : Char → Bool) (t : Text) : Nat :=
+def displayWidth (m : Table) (wc : CP → Int) (printable : CP → Bool) (t : CText) : Nat :=
   if t.all printable then cwidth wc t
   else (t.map fun c => cwidth wc ((lookup m [c]).getD [c])).sum
 
 /-- `Vt100_Output.write(data)`: `data.replace("\x1b", "?")` -/
-def safeWrite (t : Text) : Text := t.map fun c => if c = ESC then '?' else c
+def safeWrite (t : CText) : CText := t.map fun c => if c = ESC then QM else c
 
 /-- `Vt100_Output.write_raw(data)` -/
-def rawWrite (t : Text) : Text := t
+def rawWrite (t : CText) : CText := t
 
 /-- `str.replace(a, b)` for one-character `a` -/
-def replaceChar (a : Char) (b : Text) : Text → Text
+def replaceChar (a : CP) (b : CText) : CText → CText
   | [] => []
   | c :: cs => (if c = a then b else [c]) ++ replaceChar a b cs
 
@@ -112,25 +132,28 @@ inductive Origin
   | zwe      -- text explicitly marked `[ZeroWidthEscape]`, through `write_raw`
 deriving DecidableEq, Repr
 
-abbrev Seg := Origin × Text
+abbrev Seg := Origin × CText
 
-def segsText (l : List Seg) : Text := (l.map (·.2)).flatten
+def segsText (l : List Seg) : CText := (l.map (·.2)).flatten
 
 /-- One fragment of `renderer.print_formatted_text`'s loop body.
     `attrsOf` = `attrs_for_style_string[style]` (an id of the `Attrs` tuple), `sgr` = the escape
     code `Vt100_Output.set_attributes` writes for it; `last` = `last_attrs`.
     (`if attrs:` is always true: `Attrs` is a non-empty NamedTuple.) -/
-def printFrag (attrsOf : Text → Nat) (sgr : Nat → Text) (last : Option Nat)
-    (style text : Text) : List Seg × Option Nat :=
+def CR : CP := 13
+def LF : CP := 10
+
+def printFrag (attrsOf : Text → Nat) (sgr : Nat → CText) (last : Option Nat)
+    (style : Text) (text : CText) : List Seg × Option Nat :=
   let a := attrsOf style
   let pre : List Seg := if some a ≠ last then [(.gen, sgr a)] else []
   let body : Seg :=
     if isZwe style then (.zwe, rawWrite text)
-    else (.content, safeWrite (replaceChar '\n' ['\r', '\n'] (replaceChar '\r' [] text)))
+    else (.content, safeWrite (replaceChar LF [CR, LF] (replaceChar CR [] text)))
   (pre ++ [body], some a)
 
-def printLoop (attrsOf : Text → Nat) (sgr : Nat → Text) :
-    Option Nat → List (Text × Text) → List Seg
+def printLoop (attrsOf : Text → Nat) (sgr : Nat → CText) :
+    Option Nat → List (Text × CText) → List Seg
   | _, [] => []
   | last, (style, text) :: rest =>
     let (segs, last') := printFrag attrsOf sgr last style text
@@ -138,8 +161,8 @@ def printLoop (attrsOf : Text → Nat) (sgr : Nat → Text) :
 
 /-- `renderer.print_formatted_text(output, fragments, style)`: reset, enable autowrap, the loop,
     reset.  `reset` / `autowrap` are the strings the emitters write (generated). -/
-def printFrags (attrsOf : Text → Nat) (sgr : Nat → Text) (reset autowrap : Text)
-    (frs : List (Text × Text)) : List Seg :=
+def printFrags (attrsOf : Text → Nat) (sgr : Nat → CText) (reset autowrap : CText)
+    (frs : List (Text × CText)) : List Seg :=
   [(.gen, reset), (.gen, autowrap)] ++ printLoop attrsOf sgr none frs ++ [(.gen, reset)]
 
 end Ptk.C10
